@@ -132,6 +132,10 @@ func IndexInt(a Object) (int, error) {
 func IndexIntCheck(a Object, max int) (int, error) {
 	i, err := IndexInt(a)
 	if err != nil {
+		if _, ok := a.(*BigInt); ok {
+			// an integer too large for an int is out of range for any sequence
+			return 0, ExceptionNewf(IndexError, "cannot fit 'int' into an index-sized integer")
+		}
 		return 0, err
 	}
 	if i < 0 {
